@@ -138,3 +138,311 @@ theorem lcTrace_spec (choose : Option β → Option β → Option β → Nat) (w
         · simp
 
 end Dtai
+
+namespace Dtai
+
+variable {β : Type} [CommRing β] [LinearOrder β] [IsStrictOrderedRing β]
+
+/-! ### the match search -/
+
+def negVal (v : Option β) : Bool :=
+  match v with
+  | some x => decide (x < 0)
+  | none => false
+
+theorem posVal_not_negVal (v : Option β) (h : posVal v = true) : negVal v = false := by
+  cases v with
+  | none => rfl
+  | some x =>
+    simp only [posVal, decide_eq_true_eq] at h
+    simp only [negVal, decide_eq_false_iff_not, not_lt]
+    exact le_of_lt h
+
+theorem negVal_neg_of_posVal (v : Option β) (h : posVal v = true) : negVal (v.map (- ·)) = true := by
+  cases v with
+  | none => simp [posVal] at h
+  | some x =>
+    simp only [posVal, decide_eq_true_eq] at h
+    simp only [Option.map_some, negVal, decide_eq_true_eq]
+    exact neg_neg_of_pos h
+
+theorem wpNegate_get (wp : WP β) (cells : List (Nat × Nat)) (i j : Nat) :
+    (wpNegate wp cells).get i j = if (i, j) ∈ cells then (wp.get i j).map (- ·) else wp.get i j := by
+  unfold wpNegate WP.get
+  simp only [List.getElem?_mapIdx]
+  cases hrow : wp[i]? with
+  | none => simp
+  | some row =>
+    simp only [Option.map_some, Option.bind_some, List.getElem?_mapIdx]
+    cases hv : row[j]? with
+    | none => simp
+    | some v => split <;> simp
+
+/-- negative cells stay negative -/
+def NegMono (wp wp' : WP β) : Prop := ∀ i j, negVal (wp.get i j) = true → negVal (wp'.get i j) = true
+
+theorem wpNegate_spec (wp : WP β) (cells : List (Nat × Nat))
+    (hpos : ∀ q ∈ cells, posVal (wp.get q.1 q.2) = true) (h00 : wp.get 0 0 = some 0) :
+    NegMono wp (wpNegate wp cells) ∧ (∀ q ∈ cells, negVal ((wpNegate wp cells).get q.1 q.2) = true) ∧
+      (wpNegate wp cells).get 0 0 = some 0 := by
+  refine ⟨?_, ?_, ?_⟩
+  · intro i j hneg
+    rw [wpNegate_get]
+    split
+    · rename_i hmem
+      have := posVal_not_negVal _ (hpos (i, j) hmem)
+      rw [hneg] at this; cases this
+    · exact hneg
+  · intro q hq
+    rw [wpNegate_get]
+    simp only [hq, if_true]
+    exact negVal_neg_of_posVal _ (hpos q hq)
+  · rw [wpNegate_get]
+    split
+    · rw [h00]; simp
+    · exact h00
+
+theorem ogt_trans (a b c : Option β) (h1 : ogt a b = true) (h2 : ogt b c = true) : ogt a c = true := by
+  cases a <;> cases b <;> cases c <;> simp_all [ogt]
+  exact lt_trans h2 h1
+
+/-- the start cell chosen by the search is the origin or strictly above the origin's value -/
+theorem wpArgmax_spec (wp : WP β) :
+    wpArgmax wp = (0, 0) ∨ ogt (wp.get (wpArgmax wp).1 (wpArgmax wp).2) (wp.get 0 0) = true := by
+  unfold wpArgmax
+  simp only []
+  generalize (List.range wp.length).flatMap (fun i => (List.range ((wp[i]?.getD []).length)).map fun j => (i, j)) = cells
+  suffices h : ∀ (best : Nat × Nat), (best = (0, 0) ∨ ogt (wp.get best.1 best.2) (wp.get 0 0) = true) →
+      (let r := cells.foldl (fun best p => if ogt (wp.get p.1 p.2) (wp.get best.1 best.2) then p else best) best
+       r = (0, 0) ∨ ogt (wp.get r.1 r.2) (wp.get 0 0) = true) from h (0, 0) (Or.inl rfl)
+  induction cells with
+  | nil => intro best h; simpa using h
+  | cons p ps ih =>
+    intro best h
+    simp only [List.foldl_cons]
+    apply ih
+    split
+    · rename_i hgt
+      right
+      rcases h with rfl | h
+      · exact hgt
+      · exact ogt_trans _ _ _ hgt h
+    · exact h
+
+theorem posVal_of_ogt_zero (v : Option β) (h : ogt v (some 0) = true) : posVal v = true := by
+  cases v with
+  | none => simp [ogt] at h
+  | some x => simpa [ogt, posVal] using h
+
+theorem lcRaw_spec (choose : Option β → Option β → Option β → Nat) (wp : WP β) (r c : Nat)
+    (hr : 1 ≤ r) (hc : 1 ≤ c) (hstart : posVal (wp.get r c) = true) :
+    (lcRaw choose wp r c).IsChain StepBack ∧ (∀ q ∈ lcRaw choose wp r c, posVal (wp.get q.1 q.2) = true) ∧
+      (lcRaw choose wp r c).head? = some (r, c) := by
+  obtain ⟨h1, h2, h3⟩ := lcTrace_spec choose wp (r + c) r c
+  have hall : ∀ q ∈ lcTrace choose wp (r + c) r c, posVal (wp.get q.1 q.2) = true := by
+    intro q hq
+    cases hl : lcTrace choose wp (r + c) r c with
+    | nil => rw [hl] at hq; cases hq
+    | cons q0 rest =>
+      rw [hl] at hq h1 h3
+      simp only [List.head?_cons, Option.some.injEq] at h1
+      rcases List.mem_cons.mp hq with rfl | hq'
+      · rw [h1]; exact hstart
+      · exact h3 q hq'
+  unfold lcRaw
+  simp only []
+  split
+  · rename_i i j hlast
+    split
+    · rename_i hborder
+      refine ⟨h2.prefix (List.dropLast_prefix _), fun q hq => hall q (List.dropLast_subset _ hq), ?_⟩
+      cases hl : lcTrace choose wp (r + c) r c with
+      | nil => rw [hl] at h1; cases h1
+      | cons q0 rest =>
+        rw [hl] at h1 hlast
+        simp only [List.head?_cons, Option.some.injEq] at h1
+        cases rest with
+        | nil =>
+          -- the only cell is the start cell, which is not on a border
+          simp only [List.getLast?_singleton, Option.some.injEq] at hlast
+          rw [h1] at hlast
+          cases hlast
+          omega
+        | cons q1 rest' => simp [h1]
+    · exact ⟨h2, hall, h1⟩
+  · exact ⟨h2, hall, h1⟩
+
+/-- how the working matrix evolves: a cell keeps its value, or a positive cell has become negative -/
+def Flip (wp wp' : WP β) : Prop :=
+  ∀ i j, wp'.get i j = wp.get i j ∨ (posVal (wp.get i j) = true ∧ negVal (wp'.get i j) = true)
+
+theorem Flip.refl (wp : WP β) : Flip wp wp := fun _ _ => Or.inl rfl
+
+theorem Flip.trans {a b c : WP β} (h1 : Flip a b) (h2 : Flip b c) : Flip a c := by
+  intro i j
+  rcases h2 i j with h | ⟨hp, hn⟩
+  · rcases h1 i j with h' | ⟨hp', hn'⟩
+    · left; rw [h, h']
+    · right; exact ⟨hp', by rw [h]; exact hn'⟩
+  · rcases h1 i j with h' | ⟨_, hn'⟩
+    · right; exact ⟨by rw [← h']; exact hp, hn⟩
+    · have := posVal_not_negVal _ hp
+      rw [hn'] at this; cases this
+
+theorem Flip.negMono {a b : WP β} (h : Flip a b) : NegMono a b := by
+  intro i j hneg
+  rcases h i j with h' | ⟨hp, _⟩
+  · rw [h']; exact hneg
+  · have := posVal_not_negVal _ hp
+    rw [hneg] at this; cases this
+
+theorem Flip.pos_of_pos {a b : WP β} (h : Flip a b) (i j : Nat) (hp : posVal (b.get i j) = true) :
+    posVal (a.get i j) = true := by
+  rcases h i j with h' | ⟨_, hn⟩
+  · rw [← h']; exact hp
+  · have := posVal_not_negVal _ hp
+    rw [hn] at this; cases this
+
+theorem wpNegate_flip (wp : WP β) (cells : List (Nat × Nat))
+    (hpos : ∀ q ∈ cells, posVal (wp.get q.1 q.2) = true) : Flip wp (wpNegate wp cells) := by
+  intro i j
+  rw [wpNegate_get]
+  split
+  · rename_i hmem
+    right
+    exact ⟨hpos (i, j) hmem, negVal_neg_of_posVal _ (hpos (i, j) hmem)⟩
+  · left; rfl
+
+/-- one search step (`lcNext`): the matrix only flips positive cells; a returned match starts in the
+cell it is named after, is a chain of backward steps, runs through cells that are positive in the matrix
+the step started from (hence were never used before) and that are negative afterwards, and is at
+least `minlen` long -/
+theorem lcNext_spec (choose : Option β → Option β → Option β → Nat) (minlen : Nat) :
+    ∀ (fuel : Nat) (wp : WP β), wp.get 0 0 = some 0 →
+      Flip wp (lcNext choose minlen fuel wp).2 ∧ (lcNext choose minlen fuel wp).2.get 0 0 = some 0 ∧
+      ∀ m, (lcNext choose minlen fuel wp).1 = some m →
+        m.cells.head? = some (m.row, m.col) ∧ m.cells.IsChain StepBack ∧ minlen ≤ m.cells.length ∧
+        ∀ q ∈ m.cells, posVal (wp.get q.1 q.2) = true ∧
+          negVal ((lcNext choose minlen fuel wp).2.get q.1 q.2) = true := by
+  intro fuel
+  induction fuel with
+  | zero => intro wp h00; simp [lcNext, Flip.refl, h00]
+  | succ fuel ih =>
+    intro wp h00
+    unfold lcNext
+    simp only []
+    by_cases hb : (wpArgmax wp).1 = 0 ∨ (wpArgmax wp).2 = 0
+    · simp [hb, Flip.refl, h00]
+    · simp only [hb, if_false]
+      have hstart : posVal (wp.get (wpArgmax wp).1 (wpArgmax wp).2) = true := by
+        rcases wpArgmax_spec wp with h | h
+        · rw [h] at hb; simp at hb
+        · rw [h00] at h; exact posVal_of_ogt_zero _ h
+      obtain ⟨hchain, hpos, hhead⟩ := lcRaw_spec choose wp _ _ (by omega) (by omega) hstart
+      obtain ⟨hmono, hneg, h00'⟩ := wpNegate_spec wp _ hpos h00
+      have hflip := wpNegate_flip wp _ hpos
+      split
+      · -- too short: skipped, the cells stay negated
+        obtain ⟨f2, z2, m2⟩ := ih (wpNegate wp (lcRaw choose wp (wpArgmax wp).1 (wpArgmax wp).2)) h00'
+        refine ⟨hflip.trans f2, z2, ?_⟩
+        intro m hm
+        obtain ⟨a1, a2, a3, a4⟩ := m2 m hm
+        refine ⟨a1, a2, a3, ?_⟩
+        intro q hq
+        exact ⟨hflip.pos_of_pos q.1 q.2 (a4 q hq).1, (a4 q hq).2⟩
+      · rename_i hlen
+        refine ⟨hflip, h00', ?_⟩
+        intro m hm
+        simp only [Option.some.injEq] at hm
+        subst hm
+        exact ⟨hhead, hchain, by simpa using hlen, fun q hq => ⟨hpos q hq, hneg q hq⟩⟩
+
+end Dtai
+
+namespace Dtai
+
+variable {β : Type} [CommRing β] [LinearOrder β] [IsStrictOrderedRing β]
+
+/-- what the property says about one match, relative to the matrix `wp0` the search (epoch) started from -/
+structure MatchOK (wp0 : WP β) (minlen : Nat) (m : LCMatchM) : Prop where
+  start : m.cells.head? = some (m.row, m.col)
+  chain : m.cells.IsChain StepBack
+  len : minlen ≤ m.cells.length
+  positive : ∀ q ∈ m.cells, posVal (wp0.get q.1 q.2) = true
+
+def CellsDisjoint (a b : LCMatchM) : Prop := ∀ q, q ∈ a.cells → q ∉ b.cells
+
+theorem lcGo_spec (choose : Option β → Option β → Option β → Nat) (k : Option Nat) (minlen ncells : Nat)
+    (wp0 : WP β) :
+    ∀ (fuel ki : Nat) (wp : WP β) (acc : List LCMatchM),
+      Flip wp0 wp → wp.get 0 0 = some 0 → ki = acc.length →
+      (∀ m ∈ acc, MatchOK wp0 minlen m ∧ ∀ q ∈ m.cells, negVal (wp.get q.1 q.2) = true) →
+      acc.Pairwise CellsDisjoint →
+      let res := lcCall.go choose k minlen ncells fuel ki wp acc
+      Flip wp0 res.2 ∧ res.2.get 0 0 = some 0 ∧
+      (∀ m ∈ res.1, MatchOK wp0 minlen m ∧ ∀ q ∈ m.cells, negVal (res.2.get q.1 q.2) = true) ∧
+      res.1.Pairwise CellsDisjoint ∧
+      (∀ kk, k = some kk → acc.length ≤ kk → res.1.length ≤ kk) := by
+  intro fuel
+  induction fuel with
+  | zero =>
+    intro ki wp acc hf h00 _ hacc hpw
+    simp only [lcCall.go]
+    refine ⟨hf, h00, by simpa using hacc, ?_, by intro kk _ h; simpa using h⟩
+    rw [List.pairwise_reverse]
+    exact hpw.imp (fun {a b} h q hq hq' => h q hq' hq)
+  | succ fuel ih =>
+    intro ki wp acc hf h00 hki hacc hpw
+    simp only [lcCall.go]
+    have hdone : Flip wp0 (acc.reverse, wp).2 ∧ (acc.reverse, wp).2.get 0 0 = some 0 ∧
+        (∀ m ∈ (acc.reverse, wp).1, MatchOK wp0 minlen m ∧ ∀ q ∈ m.cells, negVal ((acc.reverse, wp).2.get q.1 q.2) = true) ∧
+        (acc.reverse, wp).1.Pairwise CellsDisjoint ∧
+        (∀ kk, k = some kk → acc.length ≤ kk → (acc.reverse, wp).1.length ≤ kk) := by
+      refine ⟨hf, h00, by simpa using hacc, ?_, by intro kk _ h; simpa using h⟩
+      rw [List.pairwise_reverse]
+      exact hpw.imp (fun {a b} h q hq hq' => h q hq' hq)
+    by_cases hstop : kDone k ki = true
+    · rw [if_pos hstop]; exact hdone
+    · rw [if_neg hstop]
+      have hnotdone := hstop
+      obtain ⟨nf, n00, nm⟩ := lcNext_spec choose minlen (ncells + 1) wp h00
+      cases hres : lcNext choose minlen (ncells + 1) wp with
+      | mk r wp' =>
+        rw [hres] at nf n00 nm
+        simp only [] at nf n00 nm
+        cases r with
+        | none =>
+          simp only []
+          refine ⟨hf.trans nf, n00, ?_, ?_, by intro kk _ h; simpa using h⟩
+          · intro m hm
+            have hm' : m ∈ acc := by simpa using hm
+            exact ⟨(hacc m hm').1, fun q hq => nf.negMono q.1 q.2 ((hacc m hm').2 q hq)⟩
+          · rw [List.pairwise_reverse]
+            exact hpw.imp (fun {a b} h q hq hq' => h q hq' hq)
+        | some m =>
+          simp only []
+          obtain ⟨a1, a2, a3, a4⟩ := nm m rfl
+          have hmok : MatchOK wp0 minlen m :=
+            ⟨a1, a2, a3, fun q hq => hf.pos_of_pos q.1 q.2 (a4 q hq).1⟩
+          have := ih (ki + 1) wp' (m :: acc) (hf.trans nf) n00 (by simp [hki]) ?_ ?_
+          · obtain ⟨r1, r2, r3, r4, r5⟩ := this
+            refine ⟨r1, r2, r3, r4, ?_⟩
+            intro kk hk hle
+            -- the loop guard failed, so fewer than kk matches had been produced
+            have hlt : acc.length < kk := by
+              rw [hk] at hnotdone
+              simp only [kDone, decide_eq_true_eq] at hnotdone
+              omega
+            exact r5 kk hk (by simpa using hlt)
+          · intro m' hm'
+            rcases List.mem_cons.mp hm' with rfl | hm''
+            · exact ⟨hmok, fun q hq => (a4 q hq).2⟩
+            · exact ⟨(hacc m' hm'').1, fun q hq => nf.negMono q.1 q.2 ((hacc m' hm'').2 q hq)⟩
+          · refine List.pairwise_cons.mpr ⟨?_, hpw⟩
+            intro m' hm' q hq hq'
+            -- q is positive in wp (cell of the new match) and negative in wp (cell of an earlier match)
+            have h1 := posVal_not_negVal _ (a4 q hq).1
+            rw [(hacc m' hm').2 q hq'] at h1
+            cases h1
+
+end Dtai
